@@ -308,4 +308,29 @@ def runE (c : Cfg α κ) (eqv : α → α → Bool) (l : KL α κ) : List (Op α
     let (l'', os) := runE c eqv l' ops
     (l'', o :: os)
 
+/-! ## Type parameters (`KeyedList[T, K]`)
+
+`_validate_item` on a parameterised container is two calls of `check_type`: the item against `T`,
+then `self.key(item)` against `K`; either failing raises TypeError. `okT` / `okK` are the verdicts of
+those two calls (any predicates: `Union`, `Optional`, `Literal`, `Dict[str, Any]`, `Tuple[...]`,
+bounded types, … — the model does not look inside). -/
+
+/-- configuration of `KeyedList[T, K](key=key)` -/
+def typedCfg (key : α → κ) (okT : α → Bool) (okK : κ → Bool) (asKey : α → Option κ) : Cfg α κ :=
+  { key := key, okItem := fun x => okT x && okK (key x), asKey := asKey }
+
+/-- the same container without type parameters -/
+def Cfg.untyped (c : Cfg α κ) : Cfg α κ := { c with okItem := fun _ => true }
+
+/-- the items an operation tries to put INTO the container (the only ones `_validate_item` ever sees;
+`+`, `radd` and slices build an unparameterised container and validate nothing) -/
+def Op.incoming : Op α κ → List α
+  | .setIdx _ x => [x]
+  | .setKey _ x => [x]
+  | .insert _ x => [x]
+  | .append x => [x]
+  | .extend xs => xs
+  | .iadd xs => xs
+  | _ => []
+
 end SpecVerif.C13
